@@ -436,8 +436,8 @@ Definition extract_entry_core (g : cfg) (pres : bool) (cwd : path) (dp : list na
       | None => None
       | Some f0 => chmod_if pres (write_at f0 (Nms fp) c m) fp m
       end
-    | EDir _ m =>
-      chmod_if pres (if fixN g then mkdir_real f dp rel m else mkdir_all f (Nms fp) m) fp m
+    | EDir _ m =>   (* created writable for the owner; the recorded mode is applied after the last entry *)
+      if fixN g then mkdir_real f dp rel (N.lor m 448) else mkdir_all f (Nms fp) (N.lor m 448)
     | EHard _ tgt =>
       if self then None else
       match ensure_link f dp fp tgt with
@@ -467,43 +467,52 @@ Definition extract_entry (g : cfg) (pres : bool) (cwd : path) (dp : list name) (
     end
   end.
 
-(* the mode the archive records for the unpack directory itself (a directory entry that
-   resolves to "."); the last one wins *)
-Definition root_dir_mode (dp : list name) (dirName : str) (e : entry) : option N :=
+(* the directory entries of the archive, most recent first: location and recorded mode *)
+Definition dir_record (dp : list name) (dirName : str) (e : entry) : option (path * N) :=
   match e with
-  | EDir nm m => match entry_rel dp dirName nm with Some [] => Some m | _ => None end
+  | EDir nm m => match entry_rel dp dirName nm with Some rel => Some (dp ++ rel, m) | None => None end
   | _ => None
   end.
 
-(* narrowDirMode(dirPath, mode): permission bits not in mode are removed from the existing
-   directory (never widened); Lstat, then os.Chmod when something changes *)
-Definition narrow_base (f : fsys) (dp : list name) (m : N) : option fsys :=
-  match lookup f dp with
-  | Some NDir =>
-    let want := N.land (dir_mode f dp) m in
-    if (want =? dir_mode f dp)%N then Some f else chmod_at f dp want
-  | None => None
-  | _ => Some f
+(* restoreDirModes after the last entry of a successful extraction: per path the last entry
+   wins; Lstat - a path that is no longer a directory is skipped; with PreservePermissions the
+   recorded mode exactly, else the creation mode narrowed (never widened); os.Chmod.
+   (The order of the paths does not matter for the result.) *)
+Fixpoint restore_dirs (pres : bool) (f : fsys) (dirs : list (path * N)) (seen : list path) : option fsys :=
+  match dirs with
+  | [] => Some f
+  | (p, m) :: r =>
+    if existsb (path_eqb p) seen then restore_dirs pres f r seen
+    else
+      match lookup f p with
+      | Some NDir =>
+        let want := if pres then m else N.land (dir_mode f p) m in
+        if negb pres && (want =? dir_mode f p)%N then restore_dirs pres f r (p :: seen)
+        else match chmod_at f p want with
+             | Some f' => restore_dirs pres f' r (p :: seen)
+             | None => None
+             end
+      | None => None
+      | _ => restore_dirs pres f r (p :: seen)
+      end
   end.
 
-(* extraction stops at the first error; effects of earlier entries stay.  At the end of the
-   archive, without PreservePermissions, the unpack directory (created by the caller with the
-   default mode) is narrowed to the mode recorded for it. *)
+(* extraction stops at the first error; effects of earlier entries stay (and the directories
+   keep their creation mode); after the last entry the directory modes are restored *)
 Fixpoint extract (g : cfg) (pres : bool) (cwd : path) (dp : list name) (dirName : str) (f : fsys) (es : list entry)
-  (ts : list N) (base : option N) : fsys * bool :=
+  (ts : list N) (dirs : list (path * N)) : fsys * bool :=
   match es with
   | [] =>
-    match base with
-    | Some m => if pres then (f, true)
-                else match narrow_base f dp m with Some f' => (f', true) | None => (f, false) end
-    | None => (f, true)
+    match restore_dirs pres f dirs [] with
+    | Some f' => (f', true)
+    | None => (f, false)
     end
   | e :: r =>
     match extract_entry g pres cwd dp dirName f e (hd 0%N ts) with
     | None => (f, false)
     | Some f' =>
       extract g pres cwd dp dirName f' r (tl ts)
-              (match root_dir_mode dp dirName e with Some m => Some m | None => base end)
+              (match dir_record dp dirName e with Some d => d :: dirs | None => dirs end)
     end
   end.
 
@@ -586,7 +595,7 @@ Definition push (g : cfg) (pres : bool) (wd cwd : path) (s : store) (o : pushop)
       match made with
       | None => (s, false)
       | Some f1 =>
-        let '(f2, ok) := extract g pres cwd dp title f1 es ts None in
+        let '(f2, ok) := extract g pres cwd dp title f1 es ts [] in
         (mkStore f2 (if ok then title :: st_names s else st_names s), ok)
       end
     end
